@@ -10,6 +10,8 @@ let handle (f : string list) : string =
   | ["posok"; cfg; src] -> opt_hex (pos_case (bytes_of_hex cfg) (bytes_of_hex src))
   | ["cut"; cfg; src] -> opt_hex (cut_case (bytes_of_hex cfg) (bytes_of_hex src))
   | ["tiles"; cfg; src] -> opt_hex (tiles_case (bytes_of_hex cfg) (bytes_of_hex src))
+  | ["ctxsim"; src] -> opt_hex (ctx_sim_case (bytes_of_hex src))
+  | ["ctxfrag"; src] -> opt_hex (ctx_frag_case (bytes_of_hex src))
   | ["devs"; cfg; src] -> opt_hex (lex_devs (bytes_of_hex cfg) (bytes_of_hex src))
   | _ -> "driver-error:unknown-command"
 
